@@ -1,6 +1,7 @@
 package main
 
 import (
+	"syscall"
 	mrand "math/rand"
 	"bytes"
 	"context"
@@ -177,27 +178,39 @@ type recLog struct {
 	saw   map[string]string   // request id -> what the handler saw
 }
 
-// freePort picks a port that is free right now.  Cases run in parallel child processes: asking the kernel for an
-// ephemeral port (":0") hands the same numbers to siblings one after the other, and a sibling may bind the port between
-// our probe and the server's own Listen.  A random port from a wide range, drawn from a per-process source and never
-// handed out twice by this process, makes such a collision improbable instead of likely.
+// freePort picks a port that is free right now and reserves it for the lifetime of this process.  Cases run in
+// parallel child processes (and several checks may run side by side): asking the kernel for an ephemeral port (":0")
+// hands the same numbers to siblings one after the other, and even a random port can be picked by a sibling in the
+// moment between our server's Stop and our own re-bind probe.  So every harness process takes an advisory file lock
+// per port number (held until it exits): two harness processes never use the same port at the same time.
 var (
 	portRng   = mrand.New(mrand.NewSource(time.Now().UnixNano() ^ int64(os.Getpid())<<20))
-	portsUsed = map[int]bool{}
+	portLocks = map[int]*os.File{}
 )
 
 func freePort() int {
-	for i := 0; i < 200; i++ {
+	dir := filepath.Join(os.TempDir(), "tvharness-ports")
+	os.MkdirAll(dir, 0o777)
+	for i := 0; i < 400; i++ {
 		p := 15000 + portRng.Intn(45000)
-		if portsUsed[p] {
+		if portLocks[p] != nil {
+			continue
+		}
+		f, err := os.OpenFile(filepath.Join(dir, fmt.Sprint(p)), os.O_CREATE|os.O_RDWR, 0o666)
+		if err != nil {
+			continue
+		}
+		if syscall.Flock(int(f.Fd()), syscall.LOCK_EX|syscall.LOCK_NB) != nil {
+			f.Close() // another harness process owns this port number right now
 			continue
 		}
 		l, err := net.Listen("tcp", fmt.Sprintf(":%d", p))
 		if err != nil {
+			f.Close()
 			continue
 		}
 		l.Close()
-		portsUsed[p] = true
+		portLocks[p] = f
 		return p
 	}
 	return 0
@@ -254,6 +267,23 @@ func (h *gateHello) SayHello(ctx context.Context, req *proto.HelloRequest) (*pro
 	}
 	return &proto.HelloReply{Message: "Hello, " + req.GetName()}, nil
 }
+
+// slowStartLog: the caller-supplied logger takes its time over the "Starting …" lines (a logger that writes to a slow
+// sink).  A Stop that follows Start immediately then arrives before the providers have begun to listen.
+var slowStartLog bool
+
+type slowLogger struct{ *slog.Logger }
+
+func (l *slowLogger) nap(msg string) {
+	if strings.HasPrefix(msg, "Starting") {
+		time.Sleep(25 * time.Millisecond)
+	}
+}
+func (l *slowLogger) InfoContext(ctx context.Context, msg string, args ...any) {
+	l.nap(msg)
+	l.Logger.InfoContext(ctx, msg, args...)
+}
+func (l *slowLogger) Info(msg string, args ...any) { l.nap(msg); l.Logger.Info(msg, args...) }
 
 // bundleTwice is set per `serve` operation (each case runs in its own process).
 var bundleTwice bool
@@ -322,6 +352,9 @@ func startServer(httpR, httpsR, mw string, grpcOn bool, blockRoutes bool) (*live
 	ls := &liveServer{ports: map[string]int{}, log: &recLog{lines: map[string][]string{}, saw: map[string]string{}}, gate: make(chan struct{}), entered: make(chan struct{}, 64), ggate: make(chan struct{}), gentered: make(chan struct{}, 64)}
 	quiet := slog.New(slog.NewTextHandler(io.Discard, nil))
 	b := serverConfig.BuildServerConfig().WithLogger(quiet)
+	if slowStartLog {
+		b = serverConfig.BuildServerConfig().WithLogger(&slowLogger{Logger: quiet})
+	}
 	addRoutes := func(spec string, add func(m, p string, h http.HandlerFunc)) {
 		if spec != "none" {
 			for _, rt := range strings.Split(spec, ",") {
@@ -610,6 +643,7 @@ func runScenario(listeners string, inflight int, ample, ready bool) string {
 	if has["https"] {
 		httpsR = "GET:/a:2"
 	}
+	slowStartLog = !ready && inflight == 0 && len(listeners)%2 == 0 // half of the Start-then-Stop-at-once scenarios
 	ls, err := startServer(httpR, httpsR, "off", has["grpc"], true)
 	if err != nil {
 		return "error=" + err.Error()
